@@ -239,8 +239,14 @@ void System__enable_var(struct System* self, struct Variable* var)
     __CPROVER_ensures(1 && ALLC(DL_ORDER_KEPT))                                          /*@ enable_keeps_order_of_remaining_disabled_elements */;
 
 /* disable_var: an enabled variable leaves every enabled set, its penalty and rate drop to 0, counters stay exact */
+/* precondition: counters exact (C_EXACT), NOT necessarily within their limit: System::expand calls disable_var in the
+ * transient state where the constraint just expanded on is one above its limit. Counters never grow, so a caller that
+ * had INV1 before has it afterwards (C_EXACT + C_SHRINKS + old C_RANGE => C_RANGE).                                 */
+#define C_EXACT(ci) (C(ci).concurrency_current_ == COUNT(ci))
+#define C_SHRINKS(ci)                                                                                                  \
+  (C(ci).concurrency_current_ >= 0 && C(ci).concurrency_current_ <= __CPROVER_old(C(ci).concurrency_current_))
 void System__disable_var(struct System* self, struct Variable* var)
-    __CPROVER_requires(self == &g_sys && IS_V(var) && WF_STRUCT && ALLC(INV1) && vf_exc == 0)
+    __CPROVER_requires(self == &g_sys && IS_V(var) && WF_STRUCT && ALLC(C_EXACT) && vf_exc == 0)
     __CPROVER_requires(var->sharing_penalty_ > 0.0)
     __CPROVER_assigns(vf_exc, g_modset_updates, var->sharing_penalty_, var->staged_sharing_penalty_, var->value_,
                       g_sys.variable_set, var->variable_set_hook_, HOOKS_OF(var), C_FRAME(0), C_FRAME(1))
@@ -253,7 +259,7 @@ void System__disable_var(struct System* self, struct Variable* var)
                       (var->sharing_penalty_ == 0.0 && var->staged_sharing_penalty_ == 0.0 && var->value_ == 0.0))
     /*@ disable_zeroes_penalty_and_rate */
     __CPROVER_ensures(__CPROVER_old(var->staged_sharing_penalty_) != 0.0 || WF_STRUCT) /*@ disable_keeps_structure */
-    __CPROVER_ensures(__CPROVER_old(var->staged_sharing_penalty_) != 0.0 || ALLC(INV1))
+    __CPROVER_ensures(__CPROVER_old(var->staged_sharing_penalty_) != 0.0 || (ALLC(C_EXACT) && ALLC(C_SHRINKS)))
     /*@ disable_keeps_counters_exact_and_within_limits */;
 
 /* on_disabled_var(c): wakes staged variables of c while c has room. Called in states where INV2 may be broken (a
@@ -333,6 +339,92 @@ void System__update_variable_penalty(struct System* self, struct Variable* var, 
     /*@ suspend_disables */
     __CPROVER_ensures(!(penalty > 0.0 && __CPROVER_old(var->sharing_penalty_) > 0.0) ||
                       var->sharing_penalty_ == penalty) /*@ change_of_an_enabled_variable_applies */;
+
+/* ---------- expand ------------------------------------------------------------------------------------------------ */
+/* callees outside the concurrency story: frame only */
+int g_active_updates;
+void System__make_constraint_active(struct System* self, struct Constraint* cnst)
+    __CPROVER_requires(IS_C(cnst)) __CPROVER_assigns(g_active_updates) __CPROVER_ensures(1);
+void System__update_modified_cnst_set(struct System* self, struct Constraint* cnst)
+    __CPROVER_requires(IS_C(cnst)) __CPROVER_assigns(g_modset_updates) __CPROVER_ensures(1);
+
+/* expand(cnst, var, w, force): var starts using cnst (new element) or uses it more (weight cumulated in the existing
+ * element). Top-level postconditions = the property statement: every counter equals the number of enabled counting
+ * elements and stays within its limit; when the limit of cnst would be passed, var is staged with its old penalty (and
+ * only then); no staged variable is left waiting while all its constraints have room - in particular the slots var
+ * released on its OTHER constraints when it got staged were offered to the variables staged there.
+ * Ghosts pinned in requires: g_reuse (the element of var on cnst is reused), g_slot (position of the element used).  */
+_Bool g_reuse;
+size_t g_slot;
+#define P_USES(var, c, k) ((size_t)(k) < (var)->cnsts_.n && (var)->cnsts_.d[k].constraint == (c))
+#define P_USES_ANY(var, c) (P_USES(var, c, 0) || P_USES(var, c, 1))
+#define OLD_SLOT(f) (g_slot == 0 ? __CPROVER_old(var->cnsts_.d[0].f) : __CPROVER_old(var->cnsts_.d[1].f))
+#define NEW_SLOT(f) (g_slot == 0 ? var->cnsts_.d[0].f : var->cnsts_.d[1].f)
+#define X_WAS_ENABLED (__CPROVER_old(var->sharing_penalty_) > 0.0)
+#define X_STAGED_NOW                                                                                                   \
+  (var->sharing_penalty_ == 0.0 && var->staged_sharing_penalty_ == __CPROVER_old(var->sharing_penalty_))
+#define X_STILL_ENABLED                                                                                                \
+  (var->sharing_penalty_ == __CPROVER_old(var->sharing_penalty_) && var->staged_sharing_penalty_ == 0.0)
+#define X_OTHER_STEP(v) (&V(v) == var || PEN_SAME(v) || (X_WAS_ENABLED && var->sharing_penalty_ == 0.0 && PEN_STEP(v)))
+#define X_COUNTER_SAME(ci) (C(ci).concurrency_current_ == __CPROVER_old(C(ci).concurrency_current_))
+/* weights are compared as values: a NaN weight (never produced by the models, not excluded here) stays a NaN */
+#define SAME_DBL(a, b) ((a) == (b) || ((a) != (a) && (b) != (b)))
+#define X_ELEM_KEPT(v, k)                                                                                              \
+  (E(v, k).constraint == __CPROVER_old(E(v, k).constraint) && E(v, k).variable == __CPROVER_old(E(v, k).variable) &&   \
+   SAME_DBL(E(v, k).consumption_weight, __CPROVER_old(E(v, k).consumption_weight)))
+#define X_OTHER_ELEMS_KEPT(v)                                                                                          \
+  (&V(v) == var || (X_ELEM_KEPT(v, 0) && X_ELEM_KEPT(v, 1) && V(v).cnsts_.n == __CPROVER_old(V(v).cnsts_.n)))
+void System__expand(struct System* self, struct Constraint* cnst, struct Variable* var, double consumption_weight,
+                    _Bool force_creation)
+    __CPROVER_requires(self == &g_sys && IS_C(cnst) && IS_V(var) && WF_STRUCT && ALLC(INV1) && ALLV(INV2) && vf_exc == 0)
+    /* state restrictions (check.json trusted): weights are not negative (a negative weight could take a counting
+     * element below 1 and free a slot without any wake-up); force_creation only on a constraint not used yet */
+    __CPROVER_requires(consumption_weight >= 0.0 && (!force_creation || !P_USES_ANY(var, cnst)))
+    __CPROVER_requires(g_reuse == (!force_creation && P_USES_ANY(var, cnst)))
+    __CPROVER_requires(g_slot == (g_reuse ? (P_USES(var, cnst, 0) ? 0 : 1) : var->cnsts_.n))
+    __CPROVER_assigns(vf_exc, g_modset_updates, g_active_updates, g_sys.modified_, var->value_, var->cnsts_.n,
+                      __CPROVER_object_whole(var->cnsts_.d), g_sys.variable_set, V_FRAME(0), V_FRAME(1), C_FRAME(0),
+                      C_FRAME(1))
+    __CPROVER_ensures(vf_exc == 0 || (vf_exc == VF_EXC_ABORT && ((!g_reuse && g_slot >= NE) || vf_log_enabled)))
+    /*@ expand_aborts_only_when_the_variable_is_full */
+    __CPROVER_ensures(!(!g_reuse && g_slot >= NE) || vf_exc == VF_EXC_ABORT) /*@ expand_rejects_one_constraint_too_many */
+    /*@ expand_keeps_structure */
+    __CPROVER_ensures(1 && WF_STRUCT)                                      /*@ expand_keeps_structure */
+    /*@ expand_keeps_counters_exact_and_within_limits */
+    __CPROVER_ensures(1 && ALLC(INV1))                                     /*@ expand_keeps_counters_exact_and_within_limits */
+    /*@ expand_leaves_no_staged_variable_with_room */
+    __CPROVER_ensures(vf_exc != 0 || ALLV(INV2))                           /*@ expand_leaves_no_staged_variable_with_room */
+    __CPROVER_ensures(vf_exc != 0 || (P_USES(var, cnst, g_slot) && NEW_SLOT(variable) == var &&
+                                      var->cnsts_.n == __CPROVER_old(var->cnsts_.n) + (g_reuse ? 0 : 1)))
+    /*@ expand_records_the_use_in_one_element */
+    __CPROVER_ensures(vf_exc != 0 || g_reuse || NEW_SLOT(consumption_weight) == consumption_weight)
+    /*@ expand_new_element_gets_the_weight */
+#ifdef VF_C18_WEIGHT_CLAUSE
+    /* proved for a disabled variable only (harness expand_disabled defines VF_C18_WEIGHT_CLAUSE). UNDECIDED with an
+     * enabled variable (expand_reuse): the solver has to prove the floating-point adder of the body equal to the one of
+     * this clause through differently muxed inputs together with the counting clauses (no answer after 17 CPU minutes);
+     * the concurrency clauses below do not need it (they read the new weight from the post-state on both sides) */
+    __CPROVER_ensures(vf_exc != 0 || !g_reuse ||
+                      SAME_DBL(NEW_SLOT(consumption_weight),
+                               (cnst->sharing_policy_ != SharingPolicy__FATPIPE
+                                    ? OLD_SLOT(consumption_weight) + consumption_weight
+                                    : (OLD_SLOT(consumption_weight) < consumption_weight
+                                           ? consumption_weight
+                                           : OLD_SLOT(consumption_weight)))))
+    /*@ expand_reused_element_cumulates_the_weight */
+#endif
+    __CPROVER_ensures(vf_exc != 0 || !X_WAS_ENABLED || X_STILL_ENABLED || X_STAGED_NOW)
+    /*@ expand_keeps_an_enabled_variable_enabled_or_stages_it_with_its_penalty */
+    __CPROVER_ensures(vf_exc != 0 || !X_WAS_ENABLED || !X_STAGED_NOW || SLACK(cnst) == 0)
+    /*@ expand_stages_only_when_the_constraint_has_no_room */
+    __CPROVER_ensures(X_WAS_ENABLED || (var->sharing_penalty_ == __CPROVER_old(var->sharing_penalty_) &&
+                                        var->staged_sharing_penalty_ == __CPROVER_old(var->staged_sharing_penalty_) &&
+                                        ALLC(X_COUNTER_SAME)))
+    /*@ expand_of_a_disabled_variable_moves_no_counter */
+    /*@ expand_touches_other_variables_only_to_wake_them_when_it_stages */
+    __CPROVER_ensures(1 && ALLV(X_OTHER_STEP)) /*@ expand_touches_other_variables_only_to_wake_them_when_it_stages */
+    /*@ expand_keeps_the_elements_of_other_variables */
+    __CPROVER_ensures(1 && ALLV(X_OTHER_ELEMS_KEPT)) /*@ expand_keeps_the_elements_of_other_variables */;
 
 #include "gen.c"
 
@@ -475,6 +567,43 @@ void harness(void)
   setup();
   g_room = nondet_bool();
   System__update_variable_penalty(&g_sys, pick_var(), nondet_double());
+  VF_CANARY_POINT;
+}
+#endif
+/* expand: one harness per (variable XV, number of elements it already has XN, path family XCASE): with the variable and
+ * its length constant, the element that expand creates / reuses sits at a constant address (a write through
+ * &var->cnsts_.d[n] with var and n symbolic is a byte-update at a symbolic offset: cbmc spends > 20 min converting it).
+ * XCASE 0: var disabled (no counter moves); 1: var enabled, new element; 2: var enabled, element reused.
+ * The contract is the same for all; the cases cover XV in {0,1} x XN in {0,1,2} x every path.                       */
+#ifdef H_expand
+#ifndef XCASE
+#error "H_expand needs -DXCASE= (and optionally -DXV= -DXN=)"
+#endif
+void harness(void)
+{
+  setup();
+  struct Constraint* c = pick_cnst();
+#define VX_(x) V(x)
+#ifdef XV
+  struct Variable* v = &VX_(XV);
+#else
+  struct Variable* v = pick_var();
+#endif
+#ifdef XN
+  v->cnsts_.n = XN;
+#endif
+  g_slot               = nondet_size();
+#if XCASE == 0
+  g_reuse = nondet_bool();
+  __CPROVER_assume(!(v->sharing_penalty_ > 0.0));
+#elif XCASE == 1
+  g_reuse = 0;
+  __CPROVER_assume(v->sharing_penalty_ > 0.0);
+#else
+  g_reuse = 1;
+  __CPROVER_assume(v->sharing_penalty_ > 0.0);
+#endif
+  System__expand(&g_sys, c, v, nondet_double(), nondet_bool());
   VF_CANARY_POINT;
 }
 #endif
